@@ -98,10 +98,14 @@ def runSession (dflt : Nat) (d : Day) (s : Session) : Day :=
 
 def runSessions (dflt : Nat) (ss : List Session) : Day := ss.foldl (runSession dflt) Day.empty
 
+/-- sessions tagged with the default encoder type their writer was configured with -/
+def runTagged (ses : List (Nat × Session)) : Day := ses.foldl (fun d p => runSession p.1 d p.2) Day.empty
+
 /-! ### reader -/
 
-/-- `ReadBlockAtIndex` for one block; `dec` is the decoder of the stored encoder type -/
-def readBlock (dec : Bytes → Option Bytes) (file : Bytes) (b : Blk) : Option Bytes :=
+/-- `ReadBlockAtIndex` for one block; `dec e` is the decoder of encoder type `e`: the reader picks it
+    by the type stored with the block (sessions of one day may have used different encoders) -/
+def readBlock (dec : Nat → Bytes → Option Bytes) (file : Bytes) (b : Blk) : Option Bytes :=
   if b.rawLen = 0 then some []
   else if b.enc = 0 then
     let bytes := (file.drop b.off).take b.rawLen
@@ -109,7 +113,7 @@ def readBlock (dec : Bytes → Option Bytes) (file : Bytes) (b : Blk) : Option B
   else
     let comp := (file.drop b.off).take b.len
     if comp.length ≠ b.len then none
-    else match dec comp with
+    else match dec b.enc comp with
       | some d => if d.length = b.rawLen then some d else none
       | none => none
 
@@ -118,28 +122,34 @@ def transposeBlocks : List (List (Option Bytes)) → Nat → List (List (Option 
   | _, 0 => []
   | cols, n + 1 => (cols.map fun c => (c.head?).getD none) :: transposeBlocks (cols.map List.tail) n
 
-def view (dec : Bytes → Option Bytes) (d : Day) : View :=
+def view (dec : Nat → Bytes → Option Bytes) (d : Day) : View :=
   let percol := d.cols.map fun c => c.hdr.map (readBlock dec c.file)
   let tss := (d.cols.head?.map (·.hdr.map (·.ts))).getD []
   let rows := transposeBlocks percol tss.length
   { blocks := (tss.zip (d.traffic.zip rows)).map fun (ts, tm, r) => { ts := ts, tm := tm, cols := r },
     totals := d.tot }
 
-/-- decoder table of a case: the real decoder is assumed to invert the real encoder on the
-    (raw, encoded) pairs the harness observed -/
-def decTable (ss : List Session) : Bytes → Option Bytes :=
-  let pairs := ss.flatMap fun s => s.flatMap fun w => w.cols
-  fun comp => (pairs.find? (·.2 == comp)).map (·.1)
-
 def encId (s : String) : Nat := if s == "null" then 0 else if s == "lz4" then 1 else 2
 
-/-- wire: `<encoder> <level> <sessions>` → `files=<hex|…> blocks=… totals=…` -/
+/-- decoder table of a case: the real decoder of each type is assumed to invert the real encoder of
+    that type on the (raw, encoded) pairs the harness observed in the sessions written with it -/
+def decTable (ses : List (Nat × Session)) : Nat → Bytes → Option Bytes :=
+  fun e comp =>
+    let pairs := (ses.filter (·.1 == e)).flatMap fun p => p.2.flatMap fun w => w.cols
+    (pairs.find? (·.2 == comp)).map (·.1)
+
+/-- session `i` uses encoder `i mod n` of the `+`-separated list -/
+def tagSessions (encs : List String) (ss : List Session) : List (Nat × Session) :=
+  ss.mapIdx fun i s => (encId (encs.getD (i % encs.length) "null"), s)
+
+/-- wire: `<encoder[+encoder…]> <level[+level…]> <sessions>` → `files=<hex|…> blocks=… totals=…` -/
 def handle : List String → String
   | [enc, _lvl, sess] =>
     match parseSessions sess with
     | some ss =>
-      let d := runSessions (encId enc) ss
-      "files=" ++ "|".intercalate (d.cols.map fun c => Wire.bytesToHex c.file) ++ " " ++ showView (view (decTable ss) d)
+      let ses := tagSessions (enc.splitOn "+") ss
+      let d := runTagged ses
+      "files=" ++ "|".intercalate (d.cols.map fun c => Wire.bytesToHex c.file) ++ " " ++ showView (view (decTable ses) d)
     | none => "bad-args"
   | _ => "bad-op"
 
